@@ -19,6 +19,7 @@ package manager
 import (
 	"context"
 	"fmt"
+	"runtime"
 	"runtime/debug"
 	"strings"
 	"sync"
@@ -390,7 +391,16 @@ func (c *xdsClient) reconnect() (ADSStream, error) {
 // reqWhenReconnect construct a new stream and send all the watched resources
 func (c *xdsClient) reqWhenReconnect(as ADSStream) error {
 	// send new requests for all watched resources when reqWhenReconnect
-	c.mu.Lock()
+	// Producers put requests into reqCh while holding c.mu and only the sender (the caller) takes
+	// them out, so waiting for c.mu here with a full reqCh would deadlock. The queued requests are
+	// superseded by the requests built below: discard them until the lock is free.
+	for !c.mu.TryLock() {
+		select {
+		case <-c.reqCh:
+		default:
+			runtime.Gosched()
+		}
+	}
 	defer c.mu.Unlock()
 	for rType, res := range c.watchedResource {
 		req := c.prepareRequest(rType, c.versionMap[rType], c.nonceMap[rType], res)
